@@ -413,9 +413,17 @@ def parse_output(text):
             out[cur].append(line.split())
     return out
 
+def _limits():
+    # a runaway operation (e.g. a generator that never terminates) must not exhaust the machine
+    import resource
+    try:
+        resource.setrlimit(resource.RLIMIT_AS, (6 * 1024 ** 3, 6 * 1024 ** 3))
+    except (ValueError, OSError):
+        pass
+
 def run_bin(binary, path, timeout):
     try:
-        r = subprocess.run([binary, path], stdout=subprocess.PIPE, stderr=subprocess.DEVNULL, timeout=timeout)
+        r = subprocess.run([binary, path], stdout=subprocess.PIPE, stderr=subprocess.DEVNULL, timeout=timeout, preexec_fn=_limits)
         return r.returncode, r.stdout.decode('utf-8', 'replace'), False
     except subprocess.TimeoutExpired as e:
         return -1, (e.stdout or b'').decode('utf-8', 'replace'), True
@@ -450,7 +458,7 @@ def run_shard_robust(binary, cases, workdir, tag, model, timeout):
             results[culprit.cid] = got
             pending = pending[pending.index(culprit) + 1:]
         rnd += 1
-        timeout = max(timeout, 10)
+        pass
     return results
 
 def shard(lst, n):
